@@ -230,7 +230,7 @@ Proof.
 Qed.
 
 Example dial_reaches_expected_fixed_nonvacuous :
-  verify (mkfixes true true) Ed25519 0 0 (Some 2)
+  verify (mkfixes true true true) Ed25519 0 0 (Some 2)
          [RawOne (mkcert (pub_to_cn 2) [URI true true (pub_to_cn 2)] (Some (SigBy 2 0 (pub_to_cn 2) (Some 5)))
                          5 SgSelf (-300) 7200 true false)] = Accept.
 Proof. reflexivity. Qed.
@@ -275,12 +275,50 @@ Proof.
   intros H. apply Nat.eqb_eq in H. subst. eauto.
 Qed.
 
+Lemma nokey_fixed fx s c id : fix_nokey fx = true -> nokey_crashes fx s c id = false.
+Proof. intros H. unfold nokey_crashes. rewrite H. destruct id; reflexivity. Qed.
+
+(* the honest process survives every peer once an identity without a key is refused *)
+Theorem no_crash_fixed fx lv r s h id msgs :
+  fix_nokey fx = true -> out_crash (link fx lv r s h id msgs) = false.
+Proof.
+  intros Hf. unfold link. destruct lv; [reflexivity|].
+  destruct (accepted _); [|reflexivity].
+  destruct r; [reflexivity|].
+  destruct (leaf h) as [c|]; [|reflexivity].
+  rewrite (nokey_fixed _ _ _ _ Hf).
+  destruct (router_accepts s c id); [|reflexivity].
+  destruct (declared s c id); reflexivity.
+Qed.
+
+(* ... and does not survive in the pinned code: a peer that proves its OWN key and
+   then sends an identity message without the public-key field *)
+Theorem crash_refuted :
+  exists h msgs, out_crash (link pinned LTls RAccept Ed25519 h IdNoKey msgs) = true /\
+                 tls_handshake pinned Ed25519 0 0 None h = Accept.
+Proof. exists (Hello [RawOne (honest_cert 2 0)] 0), 0. split; reflexivity. Qed.
+
+(* and only there: any other first message never crashes, whatever the fixes *)
+Theorem crash_only_without_key fx lv r s h id msgs :
+  out_crash (link fx lv r s h id msgs) = true -> id = IdNoKey /\ r = RAccept /\ fix_nokey fx = false.
+Proof.
+  unfold link. destruct lv; [discriminate|].
+  destruct (accepted _); [|discriminate].
+  destruct r; [discriminate|].
+  destruct (leaf h) as [c|]; [|discriminate].
+  destruct (nokey_crashes fx s c id) eqn:En.
+  - intros _. unfold nokey_crashes in En. destruct id; try discriminate.
+    apply andb_true_iff in En as [En _]. apply negb_true_iff in En. auto.
+  - destruct (router_accepts s c id); [|discriminate]. destruct (declared s c id); discriminate.
+Qed.
+
 Theorem identity_mismatch_dropped fx s h id msgs c :
   leaf h = Some c -> router_accepts s c id = false ->
   out_disp (link fx LTls RAccept s h id msgs) = 0 /\ out_stamp (link fx LTls RAccept s h id msgs) = [].
 Proof.
   intros Hl Hr. unfold link. destruct (accepted _); [|split; reflexivity].
-  rewrite Hl, Hr. split; reflexivity.
+  rewrite Hl. destruct (nokey_crashes fx s c id); [split; reflexivity|].
+  rewrite Hr. split; reflexivity.
 Qed.
 
 Theorem wrong_first_message_dropped fx s h msgs :
@@ -288,7 +326,7 @@ Theorem wrong_first_message_dropped fx s h msgs :
 Proof.
   unfold link. destruct (accepted _); [|reflexivity].
   destruct (leaf h) as [c|]; [|reflexivity].
-  unfold router_accepts. simpl. reflexivity.
+  unfold router_accepts, nokey_crashes. simpl. reflexivity.
 Qed.
 
 Lemma in_repeat {A} (x y : A) n : In x (repeat y n) -> x = y.
@@ -303,6 +341,7 @@ Proof.
   unfold link. destruct (accepted (tls_handshake fx s 0 0 (them_of RAccept) h)) eqn:Ea; [|intros []].
   destruct (tls_handshake fx s 0 0 (them_of RAccept) h) eqn:Et; try discriminate.
   apply tls_handshake_accept in Et as (c & hk & -> & Htk & Hv). simpl.
+  destruct (nokey_crashes fx s c id); [intros []|].
   destruct (router_accepts s c id) eqn:Er; [|intros []].
   apply identity_matches in Er as (k0 & Hk0 & Hd). rewrite Hd.
   intros Hin. apply in_repeat in Hin. subst k0.
@@ -338,6 +377,7 @@ Proof.
   destruct (accepted _); [|reflexivity].
   destruct r; simpl; [discriminate|].
   destruct (leaf h) as [c|]; [|discriminate].
+  destruct (nokey_crashes fx s c id); [discriminate|].
   destruct (router_accepts s c id); [|discriminate].
   destruct (declared s c id); discriminate.
 Qed.
@@ -679,7 +719,7 @@ Qed.
 Theorem pinned_link_violates_property_f09 :
   let h := Hello [RawOne f09_witness] 0 in
   let o := link pinned LTls (RDial 1) Ed25519 h IdMatch 2 in
-  prop_check LTls (RDial 1) Ed25519 [2; 3] h IdMatch (out_hs o) (out_disp o) (out_stamp o) false = [3; 4].
+  prop_check LTls (RDial 1) Ed25519 [2; 3] h IdMatch (out_hs o) (out_disp o) (out_stamp o) (out_crash o) = [3; 4].
 Proof. reflexivity. Qed.
 
 Definition relay_witness : cert :=
@@ -689,10 +729,16 @@ Definition relay_witness : cert :=
 Theorem pinned_link_violates_property_relay :
   let h := Hello [RawOne relay_witness] 0 in
   (let o := link pinned LTls (RDial 1) Ed25519 h IdMatch 2 in
-   prop_check LTls (RDial 1) Ed25519 [2; 3] h IdMatch (out_hs o) (out_disp o) (out_stamp o) false = [1; 4]) /\
+   prop_check LTls (RDial 1) Ed25519 [2; 3] h IdMatch (out_hs o) (out_disp o) (out_stamp o) (out_crash o) = [1; 4]) /\
   (let o := link pinned LTls RAccept Ed25519 h IdMatch 2 in
-   prop_check LTls RAccept Ed25519 [2; 3] h IdMatch (out_hs o) (out_disp o) (out_stamp o) false = [1; 4]).
+   prop_check LTls RAccept Ed25519 [2; 3] h IdMatch (out_hs o) (out_disp o) (out_stamp o) (out_crash o) = [1; 4]).
 Proof. split; reflexivity. Qed.
+
+Theorem pinned_link_violates_property_nokey :
+  let h := Hello [RawOne (honest_cert 2 0)] 0 in
+  let o := link pinned LTls RAccept Ed25519 h IdNoKey 2 in
+  prop_check LTls RAccept Ed25519 [2; 3] h IdNoKey (out_hs o) (out_disp o) (out_stamp o) (out_crash o) = [6].
+Proof. reflexivity. Qed.
 
 (* ... and the relay witness is presentable by a peer holding only keys 2 and 3 *)
 Theorem relay_witness_presentable :
@@ -708,10 +754,10 @@ Qed.
    suite and message count *)
 Theorem repaired_link_satisfies_property holds own_tls htls r s h id msgs :
   (forall k, ~ In k holds -> own_tls (htls k) = false) ->
-  let fx := mkfixes true true in
+  let fx := mkfixes true true true in
   presentable fx holds own_tls htls h ->
   let o := link fx LTls r s h id msgs in
-  link_property LTls r s holds h id (out_hs o) (out_disp o) (out_stamp o) false.
+  link_property LTls r s holds h id (out_hs o) (out_disp o) (out_stamp o) (out_crash o).
 Proof.
   intros Hh fx Hp o. subst o. unfold link.
   destruct (tls_handshake fx s 0 0 (them_of r) h) eqn:Et; simpl.
@@ -735,7 +781,7 @@ Proof.
     + intros k1 Hin1. apply in_repeat in Hin1. now subst.
     + intros _. split; [reflexivity|discriminate].
   - (* accept *)
-    simpl. destruct (router_accepts s c' id) eqn:Er.
+    simpl. rewrite (nokey_fixed fx s c' id eq_refl). destruct (router_accepts s c' id) eqn:Er.
     + destruct (identity_matches _ _ _ Er) as (k1 & Hk1 & Hd). rewrite Hd.
       rewrite Hk in Hk1. injection Hk1 as <-.
       constructor; simpl; auto.
@@ -751,12 +797,12 @@ Proof.
 Qed.
 
 Example repaired_link_nonvacuous :
-  let fx := mkfixes true true in
+  let fx := mkfixes true true true in
   let c := mkcert (pub_to_cn 2) [URI true true (pub_to_cn 2)] (Some (SigBy 2 0 (pub_to_cn 2) (Some 0)))
                   0 SgSelf (-300) 7200 true false in
   presentable fx [2; 3] (fun t => t <? 2) (fun _ => 9) (Hello [RawOne c] 0) /\
-  link fx LTls (RDial 2) Ed25519 (Hello [RawOne c] 0) IdMatch 2 = mkout true 2 [2; 2] /\
-  link fx LTls RAccept Ed25519 (Hello [RawOne c] 0) IdMatch 2 = mkout true 2 [2; 2].
+  link fx LTls (RDial 2) Ed25519 (Hello [RawOne c] 0) IdMatch 2 = mkout true 2 [2; 2] false /\
+  link fx LTls RAccept Ed25519 (Hello [RawOne c] 0) IdMatch 2 = mkout true 2 [2; 2] false.
 Proof.
   split; [|split; reflexivity].
   split; [now constructor|].
@@ -771,10 +817,10 @@ Definition signs_only_with_own_keys (holds : list key) (h : hello) : Prop :=
   forall c k n over tk, In (RawOne c) (chain_of h) -> c_sig c = Some (SigBy k n over tk) -> In k holds.
 
 Theorem f09_repaired_link_satisfies_property_without_relay holds r s h id msgs :
-  let fx := mkfixes true false in
+  let fx := mkfixes true false true in
   signs_only_with_own_keys holds h ->
   let o := link fx LTls r s h id msgs in
-  link_property LTls r s holds h id (out_hs o) (out_disp o) (out_stamp o) false.
+  link_property LTls r s holds h id (out_hs o) (out_disp o) (out_stamp o) (out_crash o).
 Proof.
   intros fx Hown o. subst o. unfold link.
   destruct (tls_handshake fx s 0 0 (them_of r) h) eqn:Et; simpl.
@@ -794,7 +840,7 @@ Proof.
     + intros _ e [= <-]. exact Hpk.
     + intros k1 Hin1. apply in_repeat in Hin1. now subst.
     + intros _. split; [reflexivity|discriminate].
-  - simpl. destruct (router_accepts s c' id) eqn:Er.
+  - simpl. rewrite (nokey_fixed fx s c' id eq_refl). destruct (router_accepts s c' id) eqn:Er.
     + destruct (identity_matches _ _ _ Er) as (k1 & Hk1 & Hd). rewrite Hd.
       rewrite Hk in Hk1. injection Hk1 as <-.
       constructor; simpl; auto.
